@@ -19,10 +19,17 @@ type c09p struct {
 	wedge     string // store call that never returns: CreateFile | Write | Close | Update
 	ib, rows  int
 	producers int
+	// trickle > 0: no size limit ever triggers; the producers pause this long (virtual time)
+	// between batches, so every flush is started by the MaxBufferedTime clock
+	trickle time.Duration
 }
 
 func (p c09p) name() string {
-	return fmt.Sprintf("wedge_%s-ib%d-rows%d-p%d", p.wedge, p.ib, p.rows, p.producers)
+	n := fmt.Sprintf("wedge_%s-ib%d-rows%d-p%d", p.wedge, p.ib, p.rows, p.producers)
+	if p.trickle > 0 {
+		n += fmt.Sprintf("-trickle%dms", p.trickle/time.Millisecond)
+	}
+	return n
 }
 
 func c09Root(p c09p) func() {
@@ -39,6 +46,10 @@ func c09Root(p c09p) func() {
 		cfg := baseConfig()
 		cfg.IngestBufferSize = p.ib
 		cfg.MaxBufferedRows = p.rows
+		if p.trickle > 0 {
+			cfg.MaxBufferedRows = 1 << 20
+			cfg.MaxBufferedTime = 50 * time.Millisecond
+		}
 		eng, err := bs.NewBloomSearchEngine(cfg, meta, data)
 		if err != nil {
 			vapi.Fail("config: %v", err)
@@ -47,7 +58,13 @@ func c09Root(p c09p) func() {
 		eng.Start()
 		// one flush request carries at most `rows` single-row batches; the pipeline holds one
 		// request being written, one queued, one held by the ingest actor, plus the buffer
-		bound := p.ib + 4*p.rows
+		perFlush := p.rows
+		if p.trickle > 0 {
+			// a time-triggered flush carries what arrived within one MaxBufferedTime window plus
+			// a ticker period (150 ms < the producers' pause): at most one batch per producer
+			perFlush = p.producers
+		}
+		bound := p.ib + 4*perFlush
 		per := (bound+4)/p.producers + 1
 		ctx, cancel := context.WithCancel(context.Background())
 		defer cancel()
@@ -69,17 +86,23 @@ func c09Root(p c09p) func() {
 			go func(pi int) {
 				defer wg.Done()
 				for k := 0; k < per; k++ {
+					if p.trickle > 0 && k > 0 {
+						time.Sleep(p.trickle)
+					}
 					d := dones[pi*per+k]
 					if err := eng.IngestRows(ctx, []map[string]any{{"id": fmt.Sprintf("p%dk%d", pi, k)}}, d); err != nil {
 						return
 					}
 					accepted.Add(1)
 					if u := unanswered(); u > bound {
-						vapi.Fail("C09: %d batches accepted and unanswered with the store stalled at %s; configuration bound is %d (IngestBufferSize=%d, %d batch(es) per flush)", u, p.wedge, bound, p.ib, p.rows)
+						vapi.Fail("C09: %d batches accepted and unanswered with the store stalled at %s; configuration bound is %d (IngestBufferSize=%d, %d batch(es) per flush)", u, p.wedge, bound, p.ib, perFlush)
 						return
 					}
 				}
 			}(pi)
+		}
+		if p.trickle > 0 {
+			time.Sleep(time.Duration(per+2) * p.trickle)
 		}
 		vapi.Quiesce()
 		if int(accepted.Load()) >= p.producers*per {
@@ -95,15 +118,24 @@ func init() {
 		var ps []c09p
 		if tier == "quick" {
 			for _, w := range []string{"CreateFile", "Write", "Close", "Update"} {
-				ps = append(ps, c09p{w, 1, 1, 2})
+				ps = append(ps, c09p{w, 1, 1, 2, 0})
 			}
-			ps = append(ps, c09p{"Update", 2, 2, 2})
+			ps = append(ps, c09p{"Update", 2, 2, 2, 0})
+			// time-triggered flushes only: each producer's batches arrive one ticker period apart
+			ps = append(ps, c09p{"CreateFile", 1, 1, 1, 250 * time.Millisecond}, c09p{"Update", 1, 1, 2, 250 * time.Millisecond})
 		} else {
+			for _, w := range []string{"CreateFile", "Write", "Close", "Update"} {
+				for _, np := range []int{1, 2} {
+					for _, gap := range []time.Duration{120 * time.Millisecond, 250 * time.Millisecond} {
+						ps = append(ps, c09p{w, 1, 1, np, gap})
+					}
+				}
+			}
 			for _, w := range []string{"CreateFile", "Write", "Close", "Update"} {
 				for _, ib := range []int{1, 2} {
 					for _, rows := range []int{1, 2} {
 						for _, np := range []int{2, 3} {
-							ps = append(ps, c09p{w, ib, rows, np})
+							ps = append(ps, c09p{w, ib, rows, np, 0})
 						}
 					}
 				}
@@ -112,6 +144,9 @@ func init() {
 		var out []Scenario
 		for _, p := range ps {
 			s := Scenario{Prop: "C09", Name: p.name(), Root: c09Root(p), Horizon: 300 * time.Millisecond, Sched: 1}
+			if p.trickle > 0 {
+				s.Horizon, s.LazyTime = 30*time.Second, true
+			}
 			if tier == "thorough" && p.producers == 2 {
 				s.Sched = 2
 			}
